@@ -343,7 +343,8 @@ Section WithV.
       + destruct (shape_at h 3) as [t|] eqn:E3; [|discriminate]. destruct (shape_at h 4) as [v|] eqn:E4; [|discriminate].
         apply shape_at3_dims in E3. apply shape_at4_dims in E4. rewrite Ed in E3, E4. cbn [fst snd] in E3, E4. subst t v.
         injection Hsub as <-. rewrite (flat_map_len_const _ nS); [rewrite seq_length; lia|].
-        intros vec Hvec. apply in_seq in Hvec. apply py_slice_len_in. rewrite Hl. nia.
+        intros vec Hvec. apply in_seq in Hvec. apply py_slice_len_in. rewrite Hl.
+        assert (idx * nS + nS <= nS * nT) by nia. assert (vec * (nS * nT) + nS * nT <= nS * nT * nV) by nia. lia.
       + injection Hsub as <-.
         assert (nV = 1).
         { destruct (class_ok_by_dims h nS nT nV Hw Ed) as [[_ [_ [-> _]]]|[[_ [-> _]]|[_ Hcls]]]; try reflexivity.
@@ -360,7 +361,7 @@ Section WithV.
         apply shape_at3_dims in E3. rewrite Ed in E3. cbn [fst snd] in E3. subst t.
         destruct nT as [|nT']; [lia|]. apply bind_ok in H as [s [Hput H]].
         apply put_ok in Hput as [-> Hb]. rewrite Htr in Hb.
-        apply (finish_simplify hr VSamples _ r Hwr Htr); [| intros X; discriminate X | exact H].
+        eapply (finish_simplify hr VSamples _ r Hwr Htr); [| intros X; discriminate X | exact H].
         split; [exact Hb|]. split; [intros X; discriminate X|]. rewrite Edr. cbn [mult_spec].
         apply every_nth_length; [exact Hidx | rewrite Hl; ring].
       + cbn [find] in Hdest. rewrite (class_ok_gconst hr Hwr) in Hdest. injection Hdest as <-.
@@ -382,7 +383,7 @@ Section WithV.
         rewrite Hg in H.
         assert (Hnd : ndim hr = 3 /\ nV = 1).
         { destruct Hcases as [[Hnd [_ [-> Hcls]]]|[[Hnd [-> Hcls]]|[Hnd Hcls]]].
-          - split; reflexivity.
+          - split; [exact Hnd | reflexivity].
           - exfalso. apply (Hnt4 Hnd). reflexivity.
           - rewrite Hcls in EV. discriminate EV. }
         destruct Hnd as [Hnd ->].
@@ -403,9 +404,114 @@ Section WithV.
       rewrite (n_slices_dims hr Hwr) in H by (rewrite Hsd; apply Hs; reflexivity). rewrite Edr in H. cbn [fst] in H.
       apply bind_ok in H as [s [Hput H]]. apply put_ok in Hput as [-> Hb]. rewrite Htr in Hb.
       destruct (Hcls5 VSlices eq_refl Hb) as [Hnd Hcls].
-      apply (finish_simplify hr VSlices _ r Hwr Htr); [| | exact H].
+      eapply (finish_simplify hr VSlices _ r Hwr Htr); [| | exact H].
       + split; [exact Hb|]. split; [intros _; rewrite Hsd; apply Hs; reflexivity|]. rewrite Edr. cbn [mult_spec].
         rewrite py_slice_len_in; [lia|]. rewrite Hl. nia.
       + intros _. left. specialize (Htr TSamples). cbn [base_of has_base] in Htr. rewrite Htr, Hcls. reflexivity.
+  Qed.
+
+  (** ** [_copy_sample] along the vector axis *)
+  Lemma copy_sample_vector_canon h hr c vs idx r nS nT nV :
+    hdr_wf h -> hdr_wf hr -> hdr_tight hr -> sdim hr = sdim h ->
+    dims h = (nS, nT, nV) -> dims hr = (nS, nT, 1) ->
+    (forall x, class_ok (shape hr) x = true -> class_ok (shape h) x = true) -> notrail hr ->
+    entry_ok h c vs -> c <> GConst -> canon_class (shape h) (dims h) (fden (dims h) c vs) c -> idx < nV ->
+    copy_sample_k veqb vnone h hr c vs BVector idx = Ok r -> kcanon hr r.
+  Proof.
+    intros Hw Hwr Htr Hsd Ed Edr Hmono [Hnt4 Hnt5] Hok Hne Hcan Hidx H. pose proof Hok as [Hc [Hs Hl]].
+    pose proof (dims_pos_of_wf h Hw) as Hpos. rewrite Ed in Hpos. destruct Hpos as [HS [HT HV]].
+    assert (Edr' : dims hr = rdims (Some 2) (dims h)) by (rewrite Ed; exact Edr).
+    rewrite Edr in Hnt4, Hnt5. cbn [fst snd] in Hnt4, Hnt5.
+    destruct copy_dests_eq as [_ [_ [Esd _]]]. destruct preserving_slices as [EpT EpV].
+    pose proof (class_ok_by_dims hr nS nT 1 Hwr Edr) as Hcases.
+    (* the result has no vector classes *)
+    assert (Hnov : forall x, class_ok (shape hr) x = true -> base_of x <> BVector).
+    { intros x Hx Hbx. destruct Hcases as [[_ [_ [_ Hcls]]]|[[_ [_ Hcls]]|[Hnd _]]];
+        try (rewrite Hcls, Hbx in Hx; discriminate Hx). apply (Hnt5 Hnd). reflexivity. }
+    unfold copy_sample_k in H. rewrite Ed in Hl.
+    destruct c; try contradiction; cbn [is_samples sub_of base_of cbase_eqb cls_eqb negb mult_spec] in *.
+    - (* GSlices *)
+      apply bind_ok in H as [sub [Hsub H]]. apply bind_ok in H as [s [Hput H]].
+      apply put_ok in Hput as [-> Hb]. rewrite Htr in Hb.
+      apply (finish_simplify hr GSlices sub r Hwr Htr); [| intros X; discriminate X | exact H].
+      split; [exact Hb|]. split; [intros _; rewrite Hsd; apply Hs; reflexivity|]. rewrite Edr. cbn [mult_spec].
+      unfold global_slice_subset in Hsub. rewrite (n_slices_dims h Hw (Hs eq_refl)), Ed in Hsub. cbn [fst] in Hsub.
+      destruct (shape_at h 3) as [t|] eqn:E3; [|discriminate].
+      apply shape_at3_dims in E3. rewrite Ed in E3. cbn [fst snd] in E3. subst t.
+      injection Hsub as <-. rewrite py_slice_len_in; [lia|]. rewrite Hl. nia.
+    - (* TSamples *)
+      apply bind_ok in H as [dm [Hdm H]]. apply bind_ok in H as [s [Hput H]].
+      destruct (mult_of_ok hr TSamples dm Hwr ltac:(intros X; discriminate X) Hdm) as [Hb ->]. rewrite Edr in *.
+      cbn [mult_spec] in *. apply put_ok in Hput as [-> _].
+      eapply (finish_simplify hr TSamples _ r Hwr Htr); [| intros X; discriminate X | exact H].
+      split; [exact Hb|]. split; [intros X; discriminate X|]. rewrite Edr. cbn [mult_spec].
+      rewrite py_slice_len_in; [lia|]. rewrite Hl. nia.
+    - (* TSlices *)
+      apply (put_transfer h hr (Some 2) TSlices TSlices vs r Hw Hwr Htr Hsd Edr' Hok Hcan H).
+      + rewrite Edr, Ed. reflexivity.
+      + intros X; exact X.
+      + intros [[s t] v] _. rewrite Edr, Ed. reflexivity.
+      + intros x Hx Hr. split; [apply Hmono; exact Hx | exact Hr].
+    - (* VSamples *)
+      apply bind_ok in H as [dest [Hdest H]]. apply bind_ok in H as [dm [Hdm H]].
+      rewrite Esd in Hdest. cbn [find cls_eqb negb andb] in Hdest. rewrite !class_valid_ok in Hdest.
+      rewrite (class_ok_gconst hr Hwr) in Hdest. injection Hdest as <-.
+      destruct (mult_of_ok hr GConst dm Hwr ltac:(intros X; discriminate X) Hdm) as [_ ->]. rewrite Edr in H.
+      cbn [mult_spec Nat.eqb] in H. destruct (nth_error vs idx) as [v|]; [|discriminate].
+      apply put_ok in H as [-> _]. apply kcanon_gconst; [exact Hwr | reflexivity].
+    - (* VSlices *)
+      rewrite EpV in H. unfold first_valid in H. cbn [find] in H. rewrite !class_valid_ok in H.
+      assert (Hg : class_ok (shape hr) GSlices = true).
+      { destruct Hcases as [[_ [_ [_ Hcls]]]|[[_ [_ Hcls]]|[_ Hcls]]]; rewrite Hcls; reflexivity. }
+      rewrite Hg in H.
+      apply (put_transfer h hr (Some 2) VSlices GSlices vs r Hw Hwr Htr Hsd Edr' Hok Hcan H).
+      + rewrite Edr, Ed. cbn [mult_spec]. lia.
+      + reflexivity.
+      + intros [[s t] v] _. rewrite Edr, Ed. cbn [rho_of cidx]. nia.
+      + intros x Hx Hr. split; [apply Hmono; exact Hx|]. pose proof (Hnov x Hx) as Hnx.
+        destruct x; cbn [base_of pref_rank] in *; try congruence; lia.
+  Qed.
+
+  (** ** one key through [get_subset] *)
+  Theorem subset_k_canon h hr dim idx c vs r :
+    hdr_wf h -> subset_hdr h dim = Ok hr -> idx < nth dim (shape h) 0 ->
+    entry_ok h c vs -> canon_class (shape h) (dims h) (fden (dims h) c vs) c ->
+    subset_k veqb vnone h hr dim idx (Some (c, vs)) = Ok r -> kcanon hr r.
+  Proof.
+    intros Hw Hhr Hidx Hok Hcan H. pose proof Hok as [Hc [Hs Hl]].
+    destruct (subset_frame h hr dim Hw Hhr) as [Hwr [Htr [Hsd [Edr [Hmono [Hnt Hdim]]]]]].
+    destruct (dims h) as [[nS nT] nV] eqn:Ed.
+    pose proof (idx_bound h dim idx nS nT nV Hw Ed Hdim Hidx) as Hib.
+    unfold subset_k in H. rewrite (visible_ok h c vs Hc) in H.
+    destruct (cls_eqb_spec c GConst) as [->|Hne].
+    { apply put_ok in H as [-> _]. apply kcanon_gconst; [exact Hwr|]. rewrite Hl. reflexivity. }
+    unfold ax_of in Edr, Hib.
+    destruct (odim_is (sdim h) dim) eqn:Eod.
+    - (* along the slice axis *)
+      cbn [rdims] in Edr.
+      destruct (is_slices c) eqn:Esl; cbn [negb] in H.
+      + apply (copy_slice_canon h hr c vs idx r nS nT nV Hw Hwr Htr Hsd Ed Edr Hok Esl Hib H).
+      + assert (Edr' : dims hr = rdims (Some 0) (dims h)) by (rewrite Ed; exact Edr).
+        apply (put_transfer h hr (Some 0) c c vs r Hw Hwr Htr Hsd Edr' Hok); try assumption.
+        * rewrite Ed. exact Hcan.
+        * rewrite Edr, Ed. destruct c; try discriminate Esl; reflexivity.
+        * intros X; exact X.
+        * intros [[s t] v] _. rewrite Edr, Ed. destruct c; try discriminate Esl; reflexivity.
+        * intros x Hx Hr. split; [apply Hmono; exact Hx | exact Hr].
+    - destruct (dim <? 3) eqn:E3.
+      + (* non-slice spatial axis: nothing changes *)
+        cbn [rdims] in Edr.
+        assert (Edr' : dims hr = rdims None (dims h)) by (rewrite Ed; exact Edr).
+        apply (put_transfer h hr None c c vs r Hw Hwr Htr Hsd Edr' Hok); try assumption.
+        * rewrite Ed. exact Hcan.
+        * rewrite Edr, Ed. reflexivity.
+        * intros X; exact X.
+        * intros [[s t] v] _. rewrite Edr, Ed. reflexivity.
+        * intros x Hx Hr. split; [apply Hmono; exact Hx | exact Hr].
+      + destruct (dim =? 3) eqn:E4; cbn [rdims] in Edr.
+        * apply (copy_sample_time_canon h hr c vs idx r nS nT nV Hw Hwr Htr Hsd Ed Edr Hmono Hnt Hok Hne); try assumption.
+          rewrite Ed. exact Hcan.
+        * apply (copy_sample_vector_canon h hr c vs idx r nS nT nV Hw Hwr Htr Hsd Ed Edr Hmono Hnt Hok Hne); try assumption.
+          rewrite Ed. exact Hcan.
   Qed.
 End WithV.
